@@ -56,3 +56,16 @@ Proof.
   - intro H. apply in_map_iff in H. destruct H as [sn [H _]]. subst e. exists false. cbn. repeat split; try reflexivity; discriminate.
   - intros [].
 Qed.
+
+(* the bound-by class the verified checker demands of a breakdown row is the one the GENERATED bound_by gives *)
+From HTA.model Require Import C08_Model.
+Theorem bound_code_is_generated clipped ty evid a : find_ev clipped evid = Some a ->
+  bound_code clipped ty evid = bound_by_gen ty (stream a) (is_comm_kernel (name a)).
+Proof.
+  intro H. unfold bound_code, bound_by_gen. rewrite H. cbn [existsb]. rewrite orb_false_r.
+  destruct (ty =? 3); [reflexivity|]. destruct (ty =? 2); [reflexivity|]. destruct ((ty =? 1) || (ty =? 4)); reflexivity.
+Qed.
+
+Theorem bound_code_delay_rows clipped ty evid : ty = 1 \/ ty = 2 \/ ty = 3 \/ ty = 4 ->
+  forall s c, bound_code clipped ty evid = bound_by_gen ty s c.
+Proof. intros [H|[H|[H|H]]] s c; subst ty; reflexivity. Qed.
